@@ -43,7 +43,9 @@ TRUSTED = ["harness/c11_run.py (observation of real runs by wrapping methods at 
 CONFIG_DIR = "jellyfysh/config_files/2018_JCP_149_064113"
 SHIPPED = ["coulomb_atoms/cell_veto.ini", "coulomb_atoms/cell_bounded.ini", "dipoles/cell_veto.ini",
            "dipoles/cell_bounded.ini", "water/coulomb_cell_veto_lj_cell_veto.ini",
-           "water/coulomb_power_bounded_lj_cell_bounded.ini"]
+           "water/coulomb_power_bounded_lj_cell_bounded.ini", "water/coulomb_cell_veto_lj_inverted.ini"]
+# shipped configurations with a cell-occupancy system that are run as they are only (no generated variants)
+SHIPPED_ONLY = ["../hard_disk_dipoles/hard_disk_dipoles_cells.ini"]
 
 
 def nxt(x, k=1):
@@ -474,7 +476,13 @@ def make_jobs(ctx, tmp):
     jobs = []
     base = os.path.join(ctx.root, CONFIG_DIR)
     ship_updates = ctx.n(1200, 24000)
-    for k, ini in enumerate(SHIPPED):
+    listed = {os.path.realpath(os.path.join(base, i)) for i in SHIPPED + SHIPPED_ONLY}
+    for dp, _, fs in os.walk(os.path.join(ctx.root, "jellyfysh", "config_files")):
+        for fn in fs:
+            if fn.endswith(".ini") and "cell_occupancy" in open(os.path.join(dp, fn)).read() \
+                    and os.path.realpath(os.path.join(dp, fn)) not in listed:
+                raise RuntimeError("a shipped configuration with a cell-occupancy system is not in C11's list: " + os.path.join(dp, fn))
+    for k, ini in enumerate(SHIPPED + SHIPPED_ONLY):
         jobs.append({"name": "shipped:" + ini, "ini": os.path.join(base, ini), "overrides": {},
                      "seed": rng.randrange(2 ** 31), "max_updates": ship_updates})
     for g in range(ctx.n(6, 42)):
@@ -517,12 +525,17 @@ def make_jobs(ctx, tmp):
     return jobs
 
 
-def run_job(ctx, job):
+def run_job(ctx, job, timeout=None):
     env = dict(os.environ)
     env["PYTHONPATH"] = ctx.root + os.pathsep + os.path.dirname(os.path.dirname(os.path.dirname(os.path.abspath(__file__))))
-    p = subprocess.run(["/venv/bin/python", "-W", "ignore", "-m", "harness.c11_run", job["job_file"]],
-                       cwd=os.path.join(ctx.root, "jellyfysh"), env=env, capture_output=True, text=True,
-                       timeout=ctx.n(120, 900))
+    try:
+        p = subprocess.run(["/venv/bin/python", "-W", "ignore", "-m", "harness.c11_run", job["job_file"]],
+                           cwd=os.path.join(ctx.root, "jellyfysh"), env=env, capture_output=True, text=True,
+                           timeout=timeout or ctx.n(120, 900))
+    except subprocess.TimeoutExpired:
+        if not job.get("stop_on"):
+            raise
+        return {"occupancies": [], "failures": [], "stats": {}, "error": "search run timed out"}
     if not os.path.exists(job["out"]):
         return {"occupancies": [], "failures": [], "stats": {}, "error": "no output: " + p.stderr[-1500:]}
     return json.load(open(job["out"]))
@@ -535,6 +548,7 @@ def run_level(ctx):
         with concurrent.futures.ThreadPoolExecutor(ctx.n(6, 6)) as ex:
             results = list(ex.map(lambda j: run_job(ctx, j), jobs))
         lines, expect, meta = [], [], []
+        search = []
         for job, res in zip(jobs, results):
             name = job["name"]
             shipped = name.startswith("shipped:")
@@ -543,6 +557,18 @@ def run_level(ctx):
                 raise RuntimeError("run-level subprocess imported jellyfysh from " + st["jellyfysh"])
             for f in res["failures"]:
                 ctx.fail("run:" + f["signature"], dict(f["case"], layer="run", config=name), f["what"])
+            ctx.count("run:premise-checked", st.get("premise:checked", 0))
+            if res.get("premise_failures"):
+                # the link theorem's premise (a pending cell-boundary candidate while an active unit is recorded) does not
+                # hold on this run: the history clause is no longer shown; search the same configuration for a run in which
+                # the active unit really leaves its recorded cell without a cell-boundary event
+                pf = res["premise_failures"][0]
+                ctx.disagree("link.pending-cell-boundary-candidate (premise of SystemLinks.active_unit_stays_in_recorded_cell)",
+                             dict(pf, layer="run", config=name, legs_without_candidate=st.get("premise:missing", 0),
+                                  legs_with_several=st.get("premise:several", 0)),
+                             "exactly one pending cell-boundary candidate of the occupancy", "%d pending" % pf["pending_cell_boundary_candidates"])
+                if not any(f["signature"].startswith("active-left-cell") for f in res["failures"]):
+                    search.append(job)
             legs = st.get("legs", 0)
             err = res.get("error")
             if err:
@@ -569,6 +595,29 @@ def run_level(ctx):
                     lines.append(line); expect.append(d); meta.append((name, job, n + 1, kind))
                     if "S= " not in d and not d.startswith("err"):
                         ctx.cls(("run-surplus", name.split(":")[1], kind))
+        if search:
+            seen, sjobs = set(), []
+            for job in search:
+                key = (job["ini"], json.dumps(job["overrides"], sort_keys=True))
+                if key in seen or len(seen) >= 2:
+                    continue
+                seen.add(key)
+                for k in range(ctx.n(7, 14)):
+                    sj = dict(job, seed=k + 1, max_updates=ctx.n(400000, 2000000), stop_on="active-left-cell", max_record=0, max_seconds=ctx.n(100, 600),
+                              name="search:" + job["name"])
+                    sj["out"] = os.path.join(tmp, "sout%d.json" % len(sjobs))
+                    sj["job_file"] = os.path.join(tmp, "sjob%d.json" % len(sjobs))
+                    with open(sj["job_file"], "w") as f:
+                        json.dump(sj, f)
+                    sjobs.append(sj)
+            with concurrent.futures.ThreadPoolExecutor(14) as ex:
+                sres = list(ex.map(lambda j: run_job(ctx, j, timeout=ctx.n(150, 900)), sjobs))
+            for sj, res in zip(sjobs, sres):
+                ctx.count("run:search-runs")
+                ctx.count("run:search-legs", res.get("stats", {}).get("legs", 0))
+                for f in res["failures"]:
+                    if f["signature"].startswith("active-left-cell"):
+                        ctx.fail("run:" + f["signature"], dict(f["case"], layer="run", config=sj["name"]), f["what"])
         replies = ctx.model("occ", lines)
         bad_sessions = set()
         for line, d, m, rep in zip(lines, expect, meta, replies):
